@@ -60,8 +60,12 @@ def replay(ctx, data):
     cfg = (data['cfg'][0], data['cfg'][1], tuple(data['cfg'][2]))
     hist = [tuple(e) for e in data['hist']]
     w = poolx.build(hist, cfg)
-    r = poolx.fair_complete(w)
-    sig = w.stuck_signature() if r else None
+    if w.live_viol:
+        # a clause violation is recorded while the history is applied
+        r, sig = ('clause', w.live_viol[1]), w.live_viol[0]
+    else:
+        r = poolx.fair_complete(w)
+        sig = w.stuck_signature() if r else None
     vloop.deactivate()
     print('replay:', r, sig)
     if r:
